@@ -86,14 +86,14 @@ PLAN = {
                              'T8 (Decimal::ZERO/MAX/MIN/PI/E), T12 (sort idiom), T15 (op= rewritten to op) extraction rewrites'],
                 unclaimed=['that rust_decimal\'s + - * / % are exact / correctly rounded as the property says (A-decimal: not decided here)',
                            'literal text reaching Decimal::from_str unchanged (tokenizer)']),
-    'C08': dict(verus=['complex-ast', 'complex-parser'], kani=['complex-ast'], level='proof',
+    'C08': dict(verus=['complex-ast', 'complex-parser', 'complex-tok'], kani=['complex-ast'], level='proof',
                 assumptions=KANI_ASSUME + PARSER_ASSUME + ['A-numcomplex: contract header for num_complex::Complex<f64> (every operation total, results uninterpreted): '
                              'what is proved for * / ^ pow sqrt root exp exp2 ln lb log abs and the trigonometric / hyperbolic functions is which num_complex operation is applied to which operands in which order'],
-                unclaimed=['the 1e-12 / 1e-9 closeness of num_complex operations to the textbook definitions', 'the `i` suffix / imaginary unit in the tokenizer',
+                unclaimed=['the 1e-12 / 1e-9 closeness of num_complex operations to the textbook definitions', '`pi` staying the constant next to `p` + `i` (keyword arms)',
                            'agreement with eval_f64 on real operands']),
-    'C09': dict(kani=['number-ast', 'number-l4'], level='proof', assumptions=KANI_ASSUME,
+    'C09': dict(verus=['number-tok'], kani=['number-ast', 'number-l4'], level='proof', assumptions=KANI_ASSUME + TOK_ASSUME,
                 unclaimed=['value of Integer ^ Integer (Kani 0.68 mis-models this arm: its counterexamples do not replay natively)',
-                           'value of the Float quotient / remainder beyond the bounded domain', 'integer vs float literal distinction (tokenizer)']),
+                           'value of the Float quotient / remainder beyond the bounded domain', 'value of ^ with a Float operand (open obligations K:number-ast/step_pow_ff, _fi, _if: CBMC does not finish them)']),
     'C17': dict(verus=PARSERS, features_sweep=True, level='proof',
                 assumptions=PARSER_ASSUME + ['cargo feature resolution; the all-features test suite is the baseline, the crate\'s unit tests are not re-run per subset',
                                              'the cfg-dependent text is only the category enum: per subset the derived order is re-proved by Kani and the build/export probe is compiled; '
@@ -103,6 +103,10 @@ PLAN = {
                 assumptions=['A-ieee: rustc/LLVM and CBMC agree on IEEE-754 binary64 comparison, floor and float->int casts',
                              'loop-free harness over kani::any::<f64>() / kani::any::<i64>(): every bit pattern, no bound'],
                 unclaimed=[]),
+    'C19': dict(verus=TOKS, kani=['f64-ast', 'complex-ast'], level='proof', assumptions=TOK_ASSUME + KANI_ASSUME,
+                unclaimed=['that std str::parse::<f64> is correctly rounded, parse::<i64> exact and Decimal::from_str exact (A-std-parse: the conversions are uninterpreted)',
+                           'the read-back clause: it needs the shape of std / rust_decimal / num_complex Display output (A-display), which no contract here can express; '
+                           'what is proved towards it: the literal grammar accepted by the tokenizers, and that a prefix minus is an exact sign flip (Kani K:f64-ast/step_negative, K:complex-ast/step_negative, Verus i64 Negative)']),
     'C20': dict(verus=ALL_V, kani=['f64-ast', 'number-ast'], level='proof', assumptions=AST_ASSUME + PARSER_ASSUME,
                 unclaimed=['eval of f64 / number / decimal / complex']),
 
@@ -165,10 +169,12 @@ LEVEL_TEXT['C08'] = ('Verus proves for all trees that eval_complex::ast::eval ne
                      '(contract header for num_complex); Kani proves + - and unary minus bit-exact against the textbook component formulas over all operand bit patterns, and * / total.')
 LEVEL_TEXT['C07'] = ('Verus proves for all trees that eval_decimal::ast::eval applies the rust_decimal operation the property names at every + - * / % unary-minus node, and returns Err - never a panic - exactly when that '
                      'operation is undefined (division or remainder by zero) or its result is outside the Decimal range, against a contract header for rust_decimal.')
+LEVEL_TEXT['C19'] = ('Verus proves for every input of every tokenizer that a literal starting with a digit is scanned to the end of the maximal run of digits (and points), that a literal starting with a point is '
+                     'scanned to the end of its digit run and prefixed with 0, that exactly this text is handed to str::parse / Decimal::from_str (no f64 round trip for Decimal), that eval_number '
+                     'chooses Integer iff the text has no point, that eval_complex makes it imaginary iff an `i` follows directly, and that text the conversion rejects yields Err instead of a panic.')
 DESIGN_REF = {}
 TECHNIQUE = {'C18': 'contract-style full-domain Kani harness on the unmodified function (bit-precise, no unwinding bound)'}
 NOT_APPLICABLE = {
     'C15': 'not yet covered: relational Kani obligations between evaluators are not built yet',
     'C16': 'contracts speak about one call: neither installed verifier can quantify over unbounded call histories or thread interleavings (Kani has no threads; Verus would need permission types around code that has no shared state to annotate)',
-    'C19': 'not yet covered: tokenizer literal arms (L1) are not under contract yet',
 }
